@@ -127,11 +127,17 @@ def _read_src(rel):
         raise BrokenTie("cannot read %s: %s" % (rel, e))
 
 
+_PARSED = {}
+
+
 def _parse(rel):
-    try:
-        return ast.parse(_read_src(rel))
-    except SyntaxError as e:
-        raise BrokenTie("cannot parse %s: %s" % (rel, e))
+    """ast of a source file of the tree under check (parsed once per process; the trees are never mutated)"""
+    if rel not in _PARSED:
+        try:
+            _PARSED[rel] = ast.parse(_read_src(rel))
+        except SyntaxError as e:
+            raise BrokenTie("cannot parse %s: %s" % (rel, e))
+    return _PARSED[rel]
 
 
 _FUNC_AST = {}
